@@ -24,9 +24,19 @@ if TYPE_CHECKING:
     from collections.abc import Callable, Hashable, Iterable
 
 
+class _Missing:
+    """Sentinel to distinguish a missing cache entry from a cached ``None``."""
+
+    def __reduce__(self) -> str:
+        return "_MISSING"
+
+
+_MISSING = _Missing()
+
+
 class _CacheBase(abc.ABC):
     @abc.abstractmethod
-    def get(self, key: Hashable) -> Any:
+    def get(self, key: Hashable, default: Any = None) -> Any:
         raise NotImplementedError
 
     @abc.abstractmethod
@@ -134,7 +144,7 @@ class HybridCache(_CacheBase):
         with self._cache_lock:
             return dict(self._computation_durations.items())
 
-    def get(self, key: Hashable) -> Any | None:
+    def get(self, key: Hashable, default: Any = None) -> Any | None:
         """Retrieve a value from the cache by its key.
 
         If the key is present in the cache, its access count is incremented.
@@ -143,17 +153,19 @@ class HybridCache(_CacheBase):
         ----------
         key
             The key associated with the value in the cache.
+        default
+            The value to return if the key is not present in the cache.
 
         Returns
         -------
             The value associated with the key if the key is present in the cache,
-            otherwise None.
+            otherwise ``default``.
 
         """
         with self._cache_lock:
             # Check and read inside the lock, the key might be evicted by another process
             if key not in self._cache_dict:
-                return None
+                return default
             self._access_counts[key] += 1
             value = self._cache_dict[key]
         if self._allow_cloudpickle and self.shared:
@@ -298,12 +310,12 @@ class LRUCache(_CacheBase):
             self._cache_queue = []  # type: ignore[assignment]
             self._cache_lock = nullcontext()  # type: ignore[assignment]
 
-    def get(self, key: Hashable) -> Any:
-        """Get a value from the cache by key."""
+    def get(self, key: Hashable, default: Any = None) -> Any:
+        """Get a value from the cache by key, or ``default`` if the key is not present."""
         with self._cache_lock:
             # Check inside the lock, the key might be evicted by another process
             if key not in self._cache_dict:
-                return None
+                return default
             value = self._cache_dict[key]
             # Move key to back of queue
             self._cache_queue.remove(key)
@@ -363,9 +375,9 @@ class SimpleCache(_CacheBase):
         """Initialize the cache."""
         self._cache_dict: dict[Hashable, Any] = {}
 
-    def get(self, key: Hashable) -> Any:
-        """Get a value from the cache by key."""
-        return self._cache_dict.get(key)
+    def get(self, key: Hashable, default: Any = None) -> Any:
+        """Get a value from the cache by key, or ``default`` if the key is not present."""
+        return self._cache_dict.get(key, default)
 
     def put(self, key: Hashable, value: Any) -> None:
         """Insert a key value pair into the cache."""
@@ -440,13 +452,13 @@ class DiskCache(_CacheBase):
         key_hash = _pickle_key(key)
         return self.cache_dir / f"{key_hash}.pkl"
 
-    def get(self, key: Hashable) -> Any:
-        """Get a value from the cache by key."""
-        if self.with_lru_cache and key in self.lru_cache:
-            value = self.lru_cache.get(key)
-            if value is not None or key in self.lru_cache:
+    def get(self, key: Hashable, default: Any = None) -> Any:
+        """Get a value from the cache by key, or ``default`` if the key is not present."""
+        if self.with_lru_cache:
+            # A single lookup, the entry might be evicted from the (shared) LRU cache at any time
+            value = self.lru_cache.get(key, _MISSING)
+            if value is not _MISSING:
                 return value
-            # Otherwise evicted from the (shared) LRU cache in between, read from disk
 
         file_path = self._get_file_path(key)
         if file_path.exists():
@@ -456,11 +468,11 @@ class DiskCache(_CacheBase):
                         cloudpickle.load(f) if self.use_cloudpickle else pickle.load(f)  # noqa: S301
                     )
             except FileNotFoundError:  # evicted by another process in the meantime
-                return None
+                return default
             if self.with_lru_cache:
                 self.lru_cache.put(key, value)
             return value
-        return None
+        return default
 
     def put(self, key: Hashable, value: Any) -> None:
         """Insert a key value pair into the cache."""
